@@ -117,8 +117,16 @@ def write_evidence(prop, tier, seed, level, coverage, assumptions, wall,
           "wall_s": round(wall, 3), "violations": int(nviol)}
     if extra:
         ev.update(jsonable(extra))
-    out = VERIF / "evidence" / f"{prop}.json"
-    out.parent.mkdir(exist_ok=True)
+    # evidence/ describes runs against /repo; a run against another tree
+    # (VERIF_REPO: seeded changes in scratch worktrees) must not replace it
+    if os.environ.get("VERIF_EVIDENCE_DIR"):
+        edir = pathlib.Path(os.environ["VERIF_EVIDENCE_DIR"])
+    elif str(boot.REPO) != "/repo":
+        edir = VERIF / ".build" / "evidence-other-tree"
+    else:
+        edir = VERIF / "evidence"
+    out = edir / f"{prop}.json"
+    out.parent.mkdir(parents=True, exist_ok=True)
     tmp = out.with_suffix(".json.tmp")
     tmp.write_text(json.dumps(ev, indent=1, sort_keys=True) + "\n")
     tmp.replace(out)
